@@ -29,9 +29,11 @@ func c15ShapesSchema() *c15Schema {
 	user := &c15Entity{Name: "User", Tags: scalarT(tString), Shape: sortAttrs([]sAttr{
 		opt("nick", tString), opt("email", tString), {Name: "curator", T: scalarT(tBool)}, opt("lvl", tLong),
 	})}
-	album := &c15Entity{Name: "Album", Shape: []sAttr{opt("label", tString)}}
-	photo := &c15Entity{Name: "Photo", Tags: scalarT(tString), Shape: sortAttrs([]sAttr{opt("label", tString), {Name: "n", T: scalarT(tLong)}})}
-	ctx := sortAttrs([]sAttr{opt("o", tLong), {Name: "flag", T: scalarT(tBool)}})
+	// a two-level hierarchy below the resource types (Photo in Album in Zine): membership
+	// between a resource and a union of types is then true for some members of the union only
+	album := &c15Entity{Name: "Album", Parents: []string{"Zine"}, Shape: []sAttr{opt("label", tString)}}
+	photo := &c15Entity{Name: "Photo", Parents: []string{"Album", "Zine"}, Tags: scalarT(tString), Shape: sortAttrs([]sAttr{opt("label", tString), {Name: "n", T: scalarT(tLong)}})}
+	ctx := sortAttrs([]sAttr{opt("o", tLong), {Name: "flag", T: scalarT(tBool)}, {Name: "key", T: scalarT(tString)}})
 	return &c15Schema{
 		Ents: []*c15Entity{{Name: "Admin"}, album, photo, user, {Name: "Zine"}},
 		Acts: []*sAction{
@@ -230,6 +232,36 @@ func c15Shapes() []c15shape {
 				c15shape{when(model.If(x.build(), g.use(), tr)), "Photo", "capleak"},
 				c15shape{when(model.If(not(x.build()), tr, g.use())), "Photo", "capleak"},
 				c15shape{when(or(not(x.build()), g.use())), "Photo", "capleak"},
+			)
+		}
+	}
+
+	// ---- keyalias: a tag guard on one key followed by a tag read with ANOTHER key whose
+	// spelling could be mistaken for it (a string literal that reads like the text of a
+	// computed key, and the reverse). Guard and read never use the same key, so the read is
+	// unguarded in every one of these shapes.
+	tagKeys := []func() *model.Expr{
+		func() *model.Expr { return L(model.Str("k")) },
+		func() *model.Expr { return L(model.Str("context.key")) },
+		func() *model.Expr { return L(model.Str("context[\"key\"]")) },
+		func() *model.Expr { return L(model.Str("\"k\"")) },
+		func() *model.Expr { return model.Access(cv, "key") },
+		func() *model.Expr { return model.If(flag, L(model.Str("k")), L(model.Str("t"))) },
+	}
+	for gi, gk := range tagKeys {
+		for ui, uk := range tagKeys {
+			if gi == ui {
+				continue
+			}
+			guard := func() *model.Expr { return model.Bin(model.OHasTag, pv, gk()) }
+			use := func() *model.Expr { return model.Like(model.Bin(model.OGetTag, pv, uk()), star) }
+			out = append(out,
+				c15shape{when(and(guard(), use())), "Photo", "keyalias"},
+				c15shape{when(model.If(guard(), use(), tr)), "Photo", "keyalias"},
+				c15shape{when(or(not(guard()), use())), "Photo", "keyalias"},
+				c15shape{when(and(and(guard(), curator), use())), "Photo", "keyalias"},
+				c15shape{[]model.Cond{{When: true, Body: guard()}, {When: true, Body: use()}}, "Photo", "keyalias"},
+				c15shape{[]model.Cond{{When: false, Body: not(guard())}, {When: true, Body: use()}}, "Photo", "keyalias"},
 			)
 		}
 	}
